@@ -538,7 +538,7 @@ def random_archive(rng, k, big):
         return w if w.strip(".") else "d" + w[1:]
     props = []
     if rng.random() < 0.85:
-        props.append(["prefix", rng.choice(["pfx", "x/addons/main", word(rng.choice([3, 20])) if big else "pfx"])])
+        props.append(["prefix", rng.choice(["pfx", "x/addons/main", "X\\Main", "Mod/Addons", word(rng.choice([3, 20])) if big else "pfx"])])
     for _ in range(rng.randint(0, 3)):
         key = rng.choice(["version", "author", "product", word(rng.choice([1, 8, 17]))])
         if key in [p[0] for p in props]:
@@ -643,7 +643,7 @@ def generate(rep, tier, rng):
     # names that differ in letter case only are different entries
     for k, sep in enumerate(["\\", "/"]):
         nms = ["Readme.txt", "readme.txt", "data" + sep + "Init.sqf", "data" + sep + "init.sqf", "DATA" + sep + "init.sqf", "README.TXT"]
-        rnd.append({"props": [["prefix", "pfx"]], "entries": [{"name": nm, "size": 4 + j, "blob": "case-%d-%d" % (k, j)} for j, nm in enumerate(nms)]})
+        rnd.append({"props": [["prefix", "pfx" if k == 0 else "X" + sep + "Main"]], "entries": [{"name": nm, "size": 4 + j, "blob": "case-%d-%d" % (k, j)} for j, nm in enumerate(nms)]})
     gr = mc("gen_random", mode="given", emit=True, given=rnd, allpoints=False, deltas=deltas, invariants=[], workers=vlib.NCPU, timeout_s=3000, xmx="16g")
     if not gr.ok:
         raise vlib.MachineryError("generator (random archives) failed: %s" % (gr.error or gr.violated))
